@@ -2360,6 +2360,13 @@ class FuncLambda(ValueFunc):
             if e.pos is None:
                 e.pos = getattr(self.body, "pos", None)
             raise
+        except RecursionError:
+            # a body without block: it is the statement that went too deep
+            raise CklRuntimeError(
+                ValueString("ERROR"),
+                "Maximum recursion depth exceeded",
+                getattr(self.body, "pos", None),
+            )
         if isinstance(result, ValueControlReturn):
             return result.value
         elif isinstance(result, ValueControlBreak):
